@@ -163,6 +163,27 @@ def rule_operand_reduced(ctx: Ctx, rep: Report) -> None:
     rep.floor(rule, 3)
 
 
+def rule_coordinates_in_field(ctx: Ctx, rep: Report) -> None:
+    """C01.coordinates_in_field: a point is a pair of *field elements*: the
+    predicate every validation goes through refuses a y outside 1..p-1 and an x
+    outside 0..p-1 before it evaluates the curve equation -- which holds mod p
+    for (x + p, y) as well, so without the bound a non-canonical pair is "on
+    the curve", multiplied as another point by one arithmetic and an
+    OverflowError on the other."""
+    from sa.ranges import has, has_bound
+    rule = "C01.coordinates_in_field"
+    fi = ctx.func(f"{CG}.CurveGroup.is_on_curve")
+    P = fi.params()[1]
+    cs = refusal_constraints(ctx, fi, accept_return=("False",))
+    for i, lo, what in ((0, 0, "x"), (1, 1, "y")):
+        subj = f"{P}[{i}]"
+        lower = has_bound(cs, "<", lo, subject=subj) is not None or has_bound(cs, "<=", lo - 1, subject=subj) is not None
+        upper = has(cs, subj, ">=", "self.p") is not None or has(cs, subj, ">", "self.p - 1") is not None
+        rep.ob(rule, f"is_on_curve:{what}_in_range", lower and upper, fi.where(), f"{what} held to {lo}..p-1" if lower and upper else
+               f"the {what}-coordinate is not held to {lo}..p-1 before the curve equation: ({what} + p) passes as {what}")
+    rep.floor(rule, 2)
+
+
 def rule_reduce(ctx: Ctx, rep: Report) -> None:
     """C01.reduce: the scalar handed to a multiplication is reduced mod the order."""
     rule = "C01.reduce"
@@ -291,6 +312,7 @@ RULES = [
     ("C01.own_fields", rule_own_fields),
     ("C01.on_curve", rule_on_curve),
     ("C01.infinity_by_y", rule_infinity_by_y),
+    ("C01.coordinates_in_field", rule_coordinates_in_field),
     ("C01.reduce", rule_reduce),
     ("C01.operand_reduced", rule_operand_reduced),
     ("C01.curve_ctor", rule_curve_ctor),
@@ -299,6 +321,8 @@ RULES = [
 ]
 
 CONTROLS = [
+    {"rule": "C01.coordinates_in_field", "name": "is_on_curve bounds y only (F22)", "module": CG,
+     "edit": lambda ctx: M.drop_if(ctx, f"{CG}.CurveGroup.is_on_curve", lambda n: "Q[0]" in norm(n.test) and "self.p" in norm(n.test))},
     {"rule": "C01.operand_reduced", "name": "tonelli_var compares the operand before reducing it", "module": NT,
      "edit": lambda ctx: M.sub_expr(ctx, f"{NT}.tonelli_var", lambda n: isinstance(n, ast.AugAssign) and isinstance(n.op, ast.Mod), "pass")},
     {"rule": "C01.infinity_by_y", "name": "double_mult_var asks for infinity by equality with INF", "module": "btclib.curves.curve",
